@@ -140,6 +140,7 @@ def plan(prop, tier):
         P += S("release", "hist", n=2000 if q else 15000, shards=2, profile="entry")
         P += S("release", "zst", depth=4 if q else 5, shards=1 if q else 4) + S("debug", "zst", depth=3 if q else 4)
         P += S("release", "plain", n=300 if q else 3000, shards=2) + S("debug", "plain", n=100 if q else 600)
+        P += S("debug", "limits", n=60 if q else 300) + S("release", "limits", n=60 if q else 300)
         P += S("release", "sweep", shards=2 if q else 6, maxlen=140 if q else 1000, dense=130 if q else 300, timeout=1800)
     elif prop == "C02":
         P += S("release", "ladder", n=6, shards=8 if q else 14, keys=20000 if q else 200000, timeout=2400)
